@@ -38,7 +38,7 @@ impl TryFrom<Repr> for UBig {
         let (sign, mag) = value.numerator.into_parts();
         if sign == Sign::Negative {
             Err(ConversionError::OutOfBounds)
-        } else if mag.is_one() {
+        } else if value.denominator.is_one() {
             Ok(mag)
         } else {
             Err(ConversionError::LossOfPrecision)
